@@ -19,10 +19,10 @@ TECHNIQUE = 'static analysis: typestate-by-ownership argument; signature, who-ma
 HANDLES_OK = ('std::rc::Rc', 'std::sync::Arc', 'rc::MutRc', 'rc::MutArc')
 # clone sites of an Observer-bounded parameter, with the obligation that keeps them sound
 P2_TABLE = {
-    '<ops::take_until::TakeUntilNotifierObserver<Item, Err, O> as Observer>::next': ('adt', 'ops::take_until::TakeUntilNotifierObserver', 2),
-    '<ops::group_by::GroupByObserver<O, Discr, Key, Subject> as Observer>::next': ('groupby', None, None),
+    '<ops::take_until::TakeUntilNotifierObserver as Observer>::next': ('adt', 'ops::take_until::TakeUntilNotifierObserver', 2),
+    '<ops::group_by::GroupByObserver as Observer>::next': ('groupby', None, None),
 }
-CONTROLS = ['P2|<verif_controls::CompleteInNext<O> as Observer>::next', 'P3|<rc::MutRc<verif_controls::PeekShared<O>> as Observer>::error',
+CONTROLS = ['P2|<verif_controls::CompleteInNext as Observer>::next', 'P3|<rc::MutRc<verif_controls::PeekShared<O>> as Observer>::error',
             'P4|unsafe block in verif_controls']
 
 
@@ -139,7 +139,7 @@ def p2(cx):
             _exposed_params(F, c['a'][0], acc)
             hit = acc & obs
             if hit:
-                sites.setdefault(cx.label(root), []).append((fn, t, [F.tystr(x) for x in hit]))
+                sites.setdefault(roles.stable_label(cx, root), []).append((fn, t, [F.tystr(x) for x in hit]))
     for label, ss in sorted(sites.items()):
         fn, t, ps = ss[0]
         tab = P2_TABLE.get(label)
